@@ -339,3 +339,243 @@ REGISTRY = {
         ["xs.nu's .export/.import cannot run here (no nu binary); the HTTP import route is exercised by engine H"],
         run=c20_run),
 }
+
+
+# ---------------------------------------------------------------------------------------------
+# Engine C properties (schedules)
+from . import schedengine as E
+
+
+def c02_oracle(lines, out, complete=True):
+    """directly on what the implementation showed: every poller's accumulation is strictly
+    increasing, and after the final polls all pollers hold the same frames (nobody missed one);
+    every follower's real frames arrive in strictly increasing id order."""
+    cons, polls, _ = E.observed(lines, out)
+    bad = []
+    for p, acc in polls.items():
+        if any(b <= a for a, b in zip(acc, acc[1:])):
+            bad.append(f"poller {p} received frames out of order or twice: {acc}")
+    if len(polls) >= 2 and complete:   # every poller polled once more at the very end
+        sets = {p: set(acc) for p, acc in polls.items()}
+        allf = set().union(*sets.values())
+        for p, st in sets.items():
+            if st != allf:
+                bad.append(f"poller {p} (polling with last-id) never received frames {sorted(allf - st)} "
+                           f"although they are committed (got {polls[p]})")
+    for k, items in cons.items():
+        ranks = [int(i.split('#')[1].split('@')[0]) for i in items if i.startswith("real#") and "?" not in i]
+        if any(b <= a for a, b in zip(ranks, ranks[1:])):
+            bad.append(f"follower {k} was sent frames out of id order: {ranks}")
+    return bad
+
+
+def conc_run(pid, profile, oracle, nq, nt, steps=(20, 40, 80), stress=None):
+    def run(ctx):
+        n = nq if ctx.tier == "quick" else nt
+        rnd = ctx.rnd
+        # 1. refutation corpus: schedules of the pre-fix protocol. If the implementation follows one
+        #    to the end it exhibits the violation; the oracle then judges what it showed.
+        corpus_dir = os.path.join(ROOT, "corpus", pid)
+        n_corpus = 0
+        for fn in sorted(os.listdir(corpus_dir)) if os.path.isdir(corpus_dir) else []:
+            if not fn.endswith(".json"):
+                continue
+            w = json.load(open(os.path.join(corpus_dir, fn)))
+            lines = E.model_labels(w["config"], w["labels"], w.get("locked", False))
+            r = E.run_schedule(lines, short_ms=250, long_ms=3000)
+            n_corpus += 1
+            bad = oracle(lines, r["out"], r["complete"] and not r["mismatch"])
+            if bad:
+                ctx.violation(f"the implementation follows the refutation schedule {fn} ({w['what']}): " + "; ".join(bad)[:600],
+                              dict(engine="C", schedule=lines, harness_output=r["out"][-40:], witness=fn))
+        # 2. random schedules of the model (fixed protocol): every predicted arrival / item / poll must match
+        scheds, cfgs = [], []
+        for i in range(n):
+            cfg = E.gen_config(random.Random(rnd.getrandbits(64)), profile)
+            cfgs.append(cfg)
+            scheds.append(E.model_schedule(cfg, True, rnd.randrange(10 ** 9), rnd.choice(steps)))
+        res = E.run_many(scheds)
+        n_steps = sum(r["n_ok"] for r in res)
+        distinct = {hashlib.sha256("\n".join(s).encode()).hexdigest() for s, r in zip(scheds, res) if r["n_ok"] >= 10}
+        first_mismatch = None
+        label_hist = {}
+        for s, r in zip(scheds, res):
+            for l in s:
+                if l.startswith("go "):
+                    k = l.split()[1]
+                    label_hist[k] = label_hist.get(k, 0) + 1
+            bad = oracle(s, r["out"], r["complete"] and not r["mismatch"])
+            if bad:
+                ctx.violation("schedule replay: " + "; ".join(bad)[:600],
+                              dict(engine="C", schedule=s, harness_output=r["out"][-40:]))
+            if (r["mismatch"] or not r["complete"]) and first_mismatch is None:
+                first_mismatch = (s, r)
+        # 3. hook-free stress judged by the oracle alone (independent of the model)
+        stress_info = None
+        if stress:
+            stress_info = stress(ctx)
+        ctx.coverage.update(dict(
+            evaluations=len(scheds) + n_corpus, distinct_nontrivial=len(distinct),
+            rule="one evaluation = one schedule generated from the extracted transition system (random walk over enabled "
+                 "labels + drive to quiescence) replayed on the real code by parking threads at the sync points; every "
+                 "predicted park position, consumed item, poll result and channel state is compared; non-trivial = at "
+                 "least 10 scheduled steps; distinct = distinct schedule text. Plus the refutation corpus and a hook-free stress.",
+            traces_validated_against_impl=len(scheds), steps_replayed=n_steps, label_histogram=label_hist,
+            refutation_schedules=n_corpus, stress=stress_info,
+            samples=[dict(schedule=scheds[0][:25])] if scheds else [dict(note="corpus only")]))
+        if first_mismatch and not any(not v["no_input"] for v in ctx.violations):
+            s, r = first_mismatch
+            ctx.violation("correspondence broken: the implementation does not follow the model's schedule: "
+                          + str(r["mismatch"] or ("incomplete run rc=%s %s" % (r["rc"], r["stderr"][-300:])))[:500]
+                          + "; no input violating the property was found",
+                          dict(engine="C", theorem_or_correspondence="engine C: xsv sched vs extracted Model/Conc.v",
+                               schedule=s, harness_output=r["out"][-40:]), no_input=True)
+    return run
+
+
+def conc_replay(oracle):
+    def replay(ctx, obj):
+        s = obj["schedule"]
+        r = E.run_schedule(s, long_ms=5000)
+        print("\n".join(r["out"][-30:]))
+        bad = oracle(s, r["out"], r["complete"] and not r["mismatch"])
+        if bad:
+            ctx.violation("replay: " + "; ".join(bad)[:600], dict(engine="C", schedule=s, harness_output=r["out"][-40:]))
+        elif r["mismatch"]:
+            ctx.violation("replay: implementation does not follow the schedule: " + r["mismatch"][:400],
+                          dict(engine="C", schedule=s, theorem_or_correspondence="engine C"), no_input=True)
+        ctx.coverage.update(dict(evaluations=1, distinct_nontrivial=1, samples=[s[:20]]))
+    return replay
+
+
+P_C02 = dict(followers=[0, 1, 1, 2], pollers=[2, 2, 3], writers=[2, 2, 3, 4], p_limit=0.1, p_pulse=0.05)
+
+REGISTRY["C02"] = dict(
+    prop_file="Props/C02.v", engine="C",
+    run=conc_run("C02", P_C02, c02_oracle, 60, 1500),
+    replay=conc_replay(c02_oracle),
+    level_text="Coq: over the transition system of Store::append/read (labels = code between two sync points), for any "
+               "number of writers/pollers/followers and every schedule: commit order = broadcast order = id order, the "
+               "visible stream (in any scope) only grows at its end, a last-id poller always holds exactly a prefix and "
+               "after each poll the whole stream, mutual exclusion of the append critical section; the pinned unlocked "
+               "protocol is refuted by a computed witness. Tie: model-generated schedules replayed on the real code by "
+               "parking real threads at the sync points (every predicted arrival, incl. 'blocked on the lock', checked); the "
+               "refutation schedule is replayed on every run.",
+    level_note=TRUSTED + "std::sync::Mutex and scru128's monotonic generator are oracles (exercised by the schedules and the "
+               "hook-free stress). Imports are outside this transition system (excepted by the property).",
+    assumptions=["ids are handed out in increasing order by one process-wide generator (scru128; false after a >10 s clock rollback)",
+                 "fjall range iterators are live with a one-item look-ahead (observed; matters for C03, not C02)"],
+)
+
+
+def sched_truth(lines):
+    """Ground truth from a schedule file: per rank (ctx, eph, ok, pre?), line of commit/bcast,
+    follower options, line of each follower's subscribe."""
+    frames, order = {}, []
+    rank = 0
+    wp, wnext, fol, sub_line, bcast_line, commit_line = {}, {}, {}, {}, {}, {}
+    for ln, l in enumerate(lines):
+        t = l.split()
+        if not t:
+            continue
+        if t[0] == "ctx":
+            frames[rank] = dict(ctx=0, eph=False, ok=True, pre=True); bcast_line[rank] = -1; commit_line[rank] = -1; rank += 1
+        elif t[0] == "pre":
+            for _ in range(int(t[2]) if len(t) > 2 else 1):
+                frames[rank] = dict(ctx=int(t[1]), eph=False, ok=True, pre=True); bcast_line[rank] = -1; commit_line[rank] = -1; rank += 1
+        elif t[0] == "writer":
+            wp[int(t[1])] = [(int(p.split(":")[0]), p.split(":")[1] == "e", p.split(":")[2] == "ok") for p in t[2:]]
+            wnext[int(t[1])] = 0
+        elif t[0] == "follower":
+            fol[int(t[1])] = dict(follow=t[2] == "1", tail=t[3] == "1", last=None if t[4] == "-" else int(t[4]),
+                                  limit=None if t[5] == "-" else int(t[5]), ctx=None if t[6] == "-" else int(t[6]),
+                                  pulse=t[7] != "-")
+        elif t[0] == "go":
+            exp = t[t.index("=>") + 1:] if "=>" in t else []
+            for e in exp:
+                if "@after_id#" in e:
+                    w = int(e[1:e.index("@")]); r = int(e.split("#")[1])
+                    c, eph, ok = wp[w][wnext[w]]; wnext[w] += 1
+                    frames[r] = dict(ctx=c, eph=eph, ok=ok, pre=False)
+                if "@after_commit#" in e:
+                    commit_line[int(e.split("#")[1])] = ln
+                if "@after_broadcast#" in e:
+                    bcast_line[int(e.split("#")[1])] = ln
+            if t[1] == "subscribe":
+                sub_line[int(t[2])] = ln
+    return frames, fol, sub_line, commit_line, bcast_line
+
+
+def follow_oracle(which):
+    """C03 / C11 judged directly on what the implementation delivered."""
+    def oracle(lines, out, complete=True):
+        cons, polls, final = E.observed(lines, out)
+        frames, fol, sub_line, commit_line, bcast_line = sched_truth(lines)
+        bad = []
+        for k, o in fol.items():
+            items = cons.get(k, [])
+            reals = [int(i.split('#')[1].split('@')[0]) for i in items if i.startswith("real#") and "?" not in i]
+            scope = lambda r: o["ctx"] is None or frames.get(r, {}).get("ctx") == o["ctx"]
+            if which == "C03":
+                if any(b <= a for a, b in zip(reals, reals[1:])):
+                    bad.append(f"follower {k}: frames delivered out of order or twice: {reals}")
+                for r in reals:
+                    if r in frames and not scope(r):
+                        bad.append(f"follower {k} (context {o['ctx']}) was sent frame #{r} of context {frames[r]['ctx']}")
+                    if o["last"] is not None and r <= o["last"]:
+                        bad.append(f"follower {k} (last-id #{o['last']}) was sent frame #{r}")
+                nthr = sum(1 for i in items if i == "threshold")
+                if nthr > 1:
+                    bad.append(f"follower {k}: {nthr} threshold markers")
+                if k in sub_line:
+                    existed = [r for r, f in frames.items() if f["ok"] and not f["eph"] and scope(r)
+                               and (o["last"] is None or r > o["last"]) and commit_line.get(r, 10 ** 9) < sub_line[k]]
+                    if "threshold" in items and not o["tail"]:
+                        before = [int(i.split('#')[1].split('@')[0]) for i in items[:items.index("threshold")] if i.startswith("real#") and "?" not in i]
+                        missing = [r for r in existed if r not in before]
+                        if missing:
+                            bad.append(f"follower {k}: frames {missing} existed when the read began but were not delivered before the threshold")
+                    if o["follow"] and not o["tail"] and o["limit"] is None and complete:
+                        if nthr != 1:
+                            bad.append(f"follower {k}: expected exactly one threshold marker, got {nthr}")
+                        stored = [r for r, f in frames.items() if f["ok"] and not f["eph"] and scope(r)
+                                  and (o["last"] is None or r > o["last"]) and commit_line.get(r, 10 ** 9) < 10 ** 9]
+                        missing = [r for r in stored if r not in reals]
+                        if missing:
+                            bad.append(f"follower {k}: stored in-scope frames {missing} were never delivered (delivered {reals})")
+            if which == "C11":
+                if o["limit"] is not None and len(reals) > o["limit"]:
+                    bad.append(f"follower {k}: limit={o['limit']} but {len(reals)} frames were delivered: {reals}")
+                if o["tail"] and k in sub_line:
+                    old = [r for r in reals if bcast_line.get(r, 10 ** 9) < sub_line[k]]
+                    if old:
+                        bad.append(f"follower {k} (tail) was sent historical frames {old}")
+                if o["limit"] is None and not o["tail"] and not o["follow"] and any(i == "threshold" for i in items):
+                    bad.append(f"follower {k}: threshold marker delivered to a non-following reader")
+                if any(i == "pulse" for i in items) and not o["pulse"]:
+                    bad.append(f"follower {k}: pulse delivered to a subscriber that did not ask for a heartbeat")
+                if complete and o["limit"] is not None and len(reals) >= o["limit"] and final.get(k) == "open":
+                    bad.append(f"follower {k}: limit={o['limit']} reached ({len(reals)} frames delivered) but the stream was never ended"
+                               + (" (heartbeat keeps it open)" if o["pulse"] else ""))
+            # synthetic frames are never stored: pollers must never see them (ranks are real frames only)
+        return bad
+    return oracle
+
+
+P_C03 = dict(followers=[1, 2, 2, 3], pollers=[0, 0, 1], writers=[1, 2, 2, 3], p_limit=0.0, p_pulse=0.1, p_tail=0.2,
+             hist=[0, 0, 1, 2, 3, 5], p_follow=0.95)
+P_C11 = dict(followers=[1, 2, 2, 3], pollers=[0, 0, 1], writers=[1, 2, 2], p_limit=0.7, p_pulse=0.3, p_tail=0.3,
+             hist=[0, 1, 2, 3, 3, 5], p_follow=0.8)
+
+REGISTRY["C03"] = dict(
+    prop_file="Props/C03.v", engine="C",
+    run=conc_run("C03", P_C03, follow_oracle("C03"), 60, 1500),
+    replay=conc_replay(follow_oracle("C03")),
+    level_text="(see Props/C03.v) follower protocol over the transition system of Store::read/append", level_note=TRUSTED,
+    assumptions=[])
+REGISTRY["C11"] = dict(
+    prop_file="Props/C11.v", engine="C",
+    run=conc_run("C11", P_C11, follow_oracle("C11"), 60, 1500),
+    replay=conc_replay(follow_oracle("C11")),
+    level_text="(see Props/C11.v) follow options over the transition system of Store::read/append", level_note=TRUSTED,
+    assumptions=[])
